@@ -4,7 +4,8 @@
 //! `RandomState` is seeded per process; the check also varies environment size / ASLR) on the
 //! same request list and diffs the answers line by line.
 //!
-//! Request: `<backend> <variant> <input> <world|->`          → `ok <hexname>:<len>:<hash> …`
+//! Request: `<backend> <variant> <input> <world|->`          → `ok <hexname>:<len>:<hash>:<hash of the sorted lines> …`
+//!            (equal sorted-lines hashes with different byte hashes = the same lines in another order)
 //!                                                            | `err <hex msg>` | `panic <hex msg>` | `bad-request <why>`
 //!          `dump <backend> <variant> <input> <world|-> <hexname>` → `file <hex content>` (witness of a diff)
 use crate::gen::*;
@@ -40,12 +41,20 @@ pub fn handle(line: &str) -> String {
             }
             let mut o = String::from("ok");
             for (n, b) in files.iter() {
+                let mut lines: Vec<&[u8]> = b.split(|c| *c == b'\n').collect();
+                lines.sort();
+                let mut hs = 0xcbf29ce484222325u64;
+                for l in &lines {
+                    hs = fnv(l, hs);
+                    hs = fnv(b"\n", hs);
+                }
                 o.push_str(&format!(
-                    " {}:{}:{:016x}{:016x}",
+                    " {}:{}:{:016x}{:016x}:{:016x}",
                     hex(n),
                     b.len(),
                     fnv(b, 0xcbf29ce484222325),
-                    fnv(b, 0x84222325cbf29ce4)
+                    fnv(b, 0x84222325cbf29ce4),
+                    hs
                 ));
             }
             o
